@@ -252,6 +252,9 @@ func localCalls(w *World, ri int, alpha string) []pt.Action {
 		}
 		for _, k := range keys {
 			add(pt.Action{Op: "put", K: k, V: "p"})
+			if strings.Contains(alpha, "same") {
+				add(pt.Action{Op: "put", K: k, V: "k"})
+			}
 			if r.mp.Get(k) != nil {
 				add(pt.Action{Op: "rem", K: k})
 			}
@@ -288,6 +291,9 @@ func localCalls(w *World, ri int, alpha string) []pt.Action {
 			for _, p := range dpos {
 				add(pt.Action{Op: "del1", P: p})
 				add(pt.Action{Op: "upd", P: p, N: 1, V: "p"})
+				if strings.Contains(alpha, "same") {
+					add(pt.Action{Op: "upd", P: p, N: 1, V: "k"})
+				}
 			}
 			if n >= 2 && (rich || strings.Contains(alpha, "batch")) {
 				add(pt.Action{Op: "del", P: 0, N: 2})
@@ -312,6 +318,9 @@ func localCalls(w *World, ri int, alpha string) []pt.Action {
 		if strings.Contains(alpha, "key1") {
 			// one top-level key only (put a primitive / an object, delete): deep three-party conflicts on it
 			shapes, objs, arrs = []string{"p", "o"}, []string{""}, nil
+		}
+		if strings.Contains(alpha, "same") {
+			shapes = append(shapes, "k")
 		}
 		for _, t := range objs {
 			keys := []string{"a"}
@@ -353,6 +362,9 @@ func localCalls(w *World, ri int, alpha string) []pt.Action {
 			if n > 0 {
 				for _, p := range uniq(0, n-1) {
 					add(pt.Action{Op: "dupd", T: t, P: p, N: 1, V: "p"})
+					if strings.Contains(alpha, "same") {
+						add(pt.Action{Op: "dupd", T: t, P: p, N: 1, V: "k"})
+					}
 					add(pt.Action{Op: "darrdel1", T: t, P: p})
 				}
 				if rich {
